@@ -210,7 +210,8 @@ Params(g) ==
                            : ep \in EllPairs }
               ELSE {})
       : ctr \in MaskCentres }
-\* the statement's anti-annular mask needs inner <= outer <= outer_2 to be an "anti-annulus"; keep ordered triples
+\* well-formed calls of the bounded family and of recorded traces: odd R2 (no pixel centre on a radius), radii in
+\* increasing order (inner < outer < outer_2: the calls for which "annulus" / "anti-annulus" mean something)
 ParOk(p) == /\ \A k \in DOMAIN p.r : p.r[k] % 2 = 1 /\ p.r[k] >= 1
             /\ (p.kind \in {"annular", "elliptical_annular"} => p.r[1] < p.r[2])
             /\ (p.kind = "anti_annular" => p.r[1] < p.r[2] /\ p.r[2] < p.r[3])
@@ -380,8 +381,11 @@ ShapeMaskIsRadialSet ==
          /\ (par.kind = "annular" => S = disc(par.r[2]) \ disc(par.r[1]))
          /\ (par.kind = "anti_annular" => S = disc(par.r[1]) \cup (disc(par.r[3]) \ disc(par.r[2])))
          /\ (par.kind = "elliptical" =>
+               /\ S = { c \in Cells(g) : EllWithin(g, c, ctr, par.e1, par.r[1]) }
+               /\ \A c \in Cells(g) : EllWithin(g, c, ctr, par.e1, par.r[1]) = ~ EllBeyond(g, c, ctr, par.e1, par.r[1])
                /\ S \subseteq disc(par.r[1])         \* inside the circle of the major-axis radius
                /\ ShapeSet(g, [par EXCEPT !.e1 = round(par.e1)]) = disc(par.r[1]))
          /\ (par.kind = "elliptical_annular" =>
-               ShapeSet(g, [par EXCEPT !.e1 = round(par.e1), !.e2 = round(par.e2)]) = disc(par.r[2]) \ disc(par.r[1]))
+               /\ S = { c \in Cells(g) : EllBeyond(g, c, ctr, par.e1, par.r[1]) /\ EllWithin(g, c, ctr, par.e2, par.r[2]) }
+               /\ ShapeSet(g, [par EXCEPT !.e1 = round(par.e1), !.e2 = round(par.e2)]) = disc(par.r[2]) \ disc(par.r[1]))
 =============================================================================
